@@ -261,7 +261,7 @@ REF = {
     'ph': lambda n, v: dataclass_ok(n, v, PH),
     'nested': lambda n, v: nested_ok(n, v, INT),
     'nested_ragged': lambda n, v: nested_ok(n, v, INT),
-    'int': lambda n, v: leaf_ok(n, v), 'str': lambda n, v: leaf_ok(n, v), 'none': lambda n, v: leaf_ok(n, v),
+    'int': lambda n, v: leaf_ok(n, v), 'str': lambda n, v: leaf_ok(n, v), 'strsub': lambda n, v: leaf_ok(n, v), 'none': lambda n, v: leaf_ok(n, v),
     'lit': lambda n, v: leaf_ok(n, v), 'bool': lambda n, v: leaf_ok(n, v),
     'enum_s': lambda n, v: leaf_ok(n, v), 'enum_i': lambda n, v: leaf_ok(n, v),
     'cond_pos': lambda n, v: leaf_ok(n, v) if isinstance(v, int) else (0 if tree_eq(n, INT.collect_errors(v)) else 4),
